@@ -172,3 +172,12 @@ func VerifAudit[K comparable, V any](c *Cache[K, V]) string {
 	return fmt.Sprintf("table=%d linked=%d dup=%d deadlinked=%d unlinked=%d notalive=%d ws=%d sumlinked=%d sumtable=%d max=%d ds=%d wb=%d",
 		table, len(linked), dup, deadLinked, unlinked, notAlive, p.weightedSize, sumLinked, sumTable, p.maximum, cc.drainStatus.Load(), cc.writeBuffer.Size())
 }
+
+// VerifInflight returns the number of load calls still registered.
+func VerifInflight[K comparable, V any](c *Cache[K, V]) int {
+	g := c.cache.singleflight
+	if !g.isInitialized.Load() {
+		return 0
+	}
+	return g.calls.Size()
+}
